@@ -217,6 +217,87 @@ func (f *Frame) modelCall(b *ssa.BasicBlock, st *State, fn *ssa.Function, fname 
 			c.axiom(r, eq(r, and(eqs...)))
 		}
 		return Val{t: r, typ: rt}, true
+	case "(*bufio.Reader).ReadString":
+		// (piece, err): err == nil iff piece ends in the delimiter (package documentation); the
+		// ghost counter X:consumed of the reader grows by len(piece)
+		key := "X:consumed"
+		tr.regKey(key, []Sx{"Int"}, it.isort())
+		sv := f.freshResult(st, types.Typ[types.String], "piece")
+		ev := c.declConst("rderr", "Iface")
+		n := sx("slen", sv.t)
+		B8 := intKind{8, false}
+		endsDelim := and(it.le(I64, it.iconst(1), n), eq(sx("select", sx("sbytes", sv.t), it.subNW(n, it.iconst(1))), it.conv(B8, B8, args[1].t)))
+		st.guard = and(st.guard, eq(eq(ev, "ifc_nil"), endsDelim))
+		// the delimiter occurs nowhere before the last byte
+		c.axiom(sv.t, fmt.Sprintf("(forall ((k %s)) (! (=> (and %s %s) (not %s)) :pattern ((select (sbytes %s) k))))", it.isort(),
+			it.le(I64, it.iconst(0), "k"), it.lt(I64, "k", it.subNW(n, it.iconst(1))), eq(sx("select", sx("sbytes", sv.t), "k"), it.conv(B8, B8, args[1].t)), sv.t))
+		old := tr.memGet(st, key)
+		st.mem[key] = c.define("H_"+key, tr.memSortFull(key), sx("store", old, args[0].t, it.addNW(sx("select", old, args[0].t), n)))
+		f.noteWrite(key, b.Index)
+		c.note("bufio.Reader.ReadString modelled: err == nil iff the piece ends in the delimiter; ghost counter 'consumed' of the reader grows by the length of the piece")
+		if tt, ok := rt.(*types.Tuple); ok && tt.Len() == 2 {
+			return Val{tup: []Val{{t: sv.t, typ: tt.At(0).Type()}, {t: ev, typ: tt.At(1).Type()}}}, true
+		}
+		return Val{}, false
+	case "fmt.Sprintf":
+		// Only what follows from the format literal: a lower bound on the length (literal bytes
+		// plus explicit widths), the literal prefix, and -- when the format has only printable
+		// ASCII literals and integer verbs (%d %x %X %o %b, optional 0 flag and width) -- that
+		// every byte of the result is printable ASCII.
+		lit, ok := tr.litStr(args[0].t)
+		if !ok || !isASCII(lit) {
+			return Val{}, false
+		}
+		minLen, prefix, intOnly, okf := sprintfShape(lit)
+		if !okf {
+			return Val{}, false
+		}
+		r := c.declConst("sprintf", "Str")
+		facts := []Sx{it.le(I64, it.iconst(int64(minLen)), sx("slen", r)), it.le(I64, sx("slen", r), it.iconst(1<<40))}
+		for i := 0; i < len(prefix) && i < 16; i++ {
+			facts = append(facts, eq(sx("select", sx("sbytes", r), it.iconst(int64(i))), it.konst(intKind{8, false}, bigInt(int64(prefix[i])))))
+		}
+		c.axiom(r, and(facts...))
+		if intOnly {
+			B8 := intKind{8, false}
+			c.axiom(r, fmt.Sprintf("(forall ((k %s)) (! (=> (and %s %s) (and %s %s)) :pattern ((select (sbytes %s) k))))", it.isort(),
+				it.le(I64, it.iconst(0), "k"), it.lt(I64, "k", sx("slen", r)),
+				it.le(B8, it.konst(B8, bigInt(0x20)), sx("select", sx("sbytes", r), "k")), it.lt(B8, sx("select", sx("sbytes", r), "k"), it.konst(B8, bigInt(0x7f))), r))
+		}
+		c.note("fmt.Sprintf with a literal format: result length at least the literal bytes plus explicit widths, literal prefix exact, integer-only formats give printable ASCII (trusted model of package fmt)")
+		return Val{t: r, typ: rt}, true
+	case "strings.IndexAny", "strings.ContainsAny", "strings.IndexByte":
+		// exact for a literal ASCII character set of at most 8 characters (or a byte operand)
+		s := args[0].t
+		var special func(cell Sx) Sx
+		B8 := intKind{8, false}
+		if fname == "strings.IndexByte" {
+			special = func(cell Sx) Sx { return eq(cell, args[1].t) }
+		} else if lit, ok := tr.litStr(args[1].t); ok && len(lit) >= 1 && len(lit) <= 8 && isASCII(lit) {
+			special = func(cell Sx) Sx {
+				var alts []Sx
+				for i := 0; i < len(lit); i++ {
+					alts = append(alts, eq(cell, it.konst(B8, bigInt(int64(lit[i])))))
+				}
+				return or(alts...)
+			}
+		} else {
+			return Val{}, false
+		}
+		j := c.declConst("idx", it.isort())
+		n := sx("slen", s)
+		tr.c.fresh++
+		k := fmt.Sprintf("k!ia%d", tr.c.fresh)
+		first := ite(it.lt(I64, j, it.iconst(0)), n, j)
+		c.axiom(j, and(it.le(I64, it.iconst(-1), j), it.lt(I64, j, n),
+			imp(it.le(I64, it.iconst(0), j), special(sx("select", sx("sbytes", s), j)))))
+		c.axiom(j, fmt.Sprintf("(forall ((%s %s)) (! (=> (and %s %s) (not %s)) :pattern ((select (sbytes %s) %s))))", k, it.isort(),
+			it.le(I64, it.iconst(0), k), it.lt(I64, k, first), special(sx("select", sx("sbytes", s), k)), s, k))
+		c.note("strings.IndexAny / ContainsAny / IndexByte modelled exactly (least index of a byte in the literal ASCII set)")
+		if fname == "strings.ContainsAny" {
+			return Val{t: c.defineBool(name, it.le(I64, it.iconst(0), j)), typ: rt}, true
+		}
+		return Val{t: j, typ: rt}, true
 	case "strings.HasSuffix":
 		s, p := args[0].t, args[1].t
 		c.declFun("ext_strings.HasSuffix_0", []Sx{"Str", "Str"}, "Bool")
@@ -231,7 +312,7 @@ func (f *Frame) modelCall(b *ssa.BasicBlock, st *State, fn *ssa.Function, fname 
 			c.axiom(r, eq(r, and(eqs...)))
 		}
 		return Val{t: r, typ: rt}, true
-	case "(*bytes.Buffer).WriteByte", "(*strings.Builder).WriteByte":
+	case "(*bytes.Buffer).WriteByte", "(*strings.Builder).WriteByte", "(*bufio.Writer).WriteByte":
 		ln, data := tr.bufKeys()
 		l0 := sx("select", tr.memGet(st, ln), args[0].t)
 		d0 := tr.memGet(st, data)
@@ -240,25 +321,40 @@ func (f *Frame) modelCall(b *ssa.BasicBlock, st *State, fn *ssa.Function, fname 
 		f.noteWrite(data, b.Index)
 		f.noteWrite(ln, b.Index)
 		c.note("bytes.Buffer / strings.Builder modelled by ghost content (length and byte array); WriteByte/WriteString/String/Len exact, WriteRune exact for ASCII")
-		return Val{t: "ifc_nil", typ: rt}, true
-	case "(*bytes.Buffer).WriteString", "(*strings.Builder).WriteString":
+		return Val{t: f.bufErr(fname), typ: rt}, true
+	case "(*bytes.Buffer).WriteString", "(*strings.Builder).WriteString", "(*bufio.Writer).WriteString":
 		ln, data := tr.bufKeys()
 		l0 := c.define("bl", it.isort(), sx("select", tr.memGet(st, ln), args[0].t))
 		d0 := tr.memGet(st, data)
 		old := sx("select", d0, args[0].t)
+		if lit, ok := tr.litStr(args[1].t); ok && len(lit) <= 8 {
+			// a short literal: explicit stores, no quantifier
+			arr := old
+			for i := 0; i < len(lit); i++ {
+				arr = sx("store", arr, it.addNW(l0, it.iconst(int64(i))), it.konst(intKind{8, false}, bigInt(int64(lit[i]))))
+			}
+			st.mem[data] = c.define("H_"+data, tr.memSortFull(data), sx("store", d0, args[0].t, arr))
+			st.mem[ln] = c.define("H_"+ln, tr.memSortFull(ln), sx("store", tr.memGet(st, ln), args[0].t, it.addNW(l0, it.iconst(int64(len(lit))))))
+			f.noteWrite(data, b.Index)
+			f.noteWrite(ln, b.Index)
+			if tt, ok := rt.(*types.Tuple); ok && tt.Len() == 2 {
+				return Val{tup: []Val{{t: it.iconst(int64(len(lit))), typ: tt.At(0).Type()}, {t: f.bufErr(fname), typ: tt.At(1).Type()}}}, true
+			}
+			return Val{}, true
+		}
 		na := c.declConst("Abuf", sx("Array", it.isort(), it.sort(intKind{8, false})))
 		sl := sx("slen", args[1].t)
 		c.softAxiom(na, fmt.Sprintf("(forall ((k %s)) (! (= (select %s k) (ite (and %s %s) (select (sbytes %s) %s) (select %s k))) :pattern ((select %s k))))",
-			it.isort(), na, it.le(I64, l0, "k"), it.lt(I64, "k", it.addNW(l0, sl)), args[1].t, it.sub(I64, "k", l0), old, na))
+			it.isort(), na, it.le(I64, l0, "k"), it.lt(I64, "k", it.addNW(l0, sl)), args[1].t, it.subNW("k", l0), old, na))
 		st.mem[data] = c.define("H_"+data, tr.memSortFull(data), sx("store", d0, args[0].t, na))
 		st.mem[ln] = c.define("H_"+ln, tr.memSortFull(ln), sx("store", tr.memGet(st, ln), args[0].t, it.addNW(l0, sl)))
 		f.noteWrite(data, b.Index)
 		f.noteWrite(ln, b.Index)
 		if tt, ok := rt.(*types.Tuple); ok && tt.Len() == 2 {
-			return Val{tup: []Val{{t: sl, typ: tt.At(0).Type()}, {t: "ifc_nil", typ: tt.At(1).Type()}}}, true
+			return Val{tup: []Val{{t: sl, typ: tt.At(0).Type()}, {t: f.bufErr(fname), typ: tt.At(1).Type()}}}, true
 		}
 		return Val{}, true
-	case "(*bytes.Buffer).WriteRune", "(*strings.Builder).WriteRune":
+	case "(*bytes.Buffer).WriteRune", "(*strings.Builder).WriteRune", "(*bufio.Writer).WriteRune":
 		// ASCII exact; other runes: 1..4 unspecified bytes >= 0x80
 		ln, data := tr.bufKeys()
 		l0 := c.define("bl", it.isort(), sx("select", tr.memGet(st, ln), args[0].t))
@@ -279,7 +375,7 @@ func (f *Frame) modelCall(b *ssa.BasicBlock, st *State, fn *ssa.Function, fname 
 		f.noteWrite(data, b.Index)
 		f.noteWrite(ln, b.Index)
 		if tt, ok := rt.(*types.Tuple); ok && tt.Len() == 2 {
-			return Val{tup: []Val{{t: w, typ: tt.At(0).Type()}, {t: "ifc_nil", typ: tt.At(1).Type()}}}, true
+			return Val{tup: []Val{{t: w, typ: tt.At(0).Type()}, {t: f.bufErr(fname), typ: tt.At(1).Type()}}}, true
 		}
 		return Val{}, true
 	case "(*bytes.Buffer).String", "(*strings.Builder).String":
@@ -309,6 +405,26 @@ func (f *Frame) modelCall(b *ssa.BasicBlock, st *State, fn *ssa.Function, fname 
 	return Val{}, false
 }
 
+// bufErr: in-memory buffers never fail; a bufio.Writer may report the (sticky) error of the
+// underlying stream, in which case the ghost content is what would have been written
+func (f *Frame) bufErr(fname string) Sx {
+	if !strings.HasPrefix(fname, "(*bufio.Writer)") {
+		return "ifc_nil"
+	}
+	f.tr.c.note("bufio.Writer modelled by the ghost sequence of all bytes handed to it; every write may return a non-nil error (contracts speak about the error-free case)")
+	return f.tr.c.declConst("werr", "Iface")
+}
+
+// litStr: if term is a string literal constant, its text
+func (tr *Translator) litStr(t Sx) (string, bool) {
+	for s, n := range tr.c.strLits {
+		if n == t {
+			return s, true
+		}
+	}
+	return "", false
+}
+
 // ghost content of bytes.Buffer / strings.Builder objects
 func (tr *Translator) bufKeys() (ln, data string) {
 	c := tr.c
@@ -316,6 +432,83 @@ func (tr *Translator) bufKeys() (ln, data string) {
 	tr.regKey(ln, []Sx{"Int"}, c.it.isort())
 	tr.regKey(data, []Sx{"Int", c.it.isort()}, c.it.sort(intKind{8, false}))
 	return
+}
+
+// sprintfShape parses a printf format: minimal output length, literal prefix before the first
+// verb, whether all verbs are plain integer verbs and all literals printable; ok=false if the
+// format uses anything this parser does not know (*, indexes, ...).
+func sprintfShape(f string) (minLen int, prefix string, intOnly bool, ok bool) {
+	intOnly = true
+	seenVerb := false
+	for i := 0; i < len(f); i++ {
+		ch := f[i]
+		if ch != '%' {
+			minLen++
+			if !seenVerb {
+				prefix += string(ch)
+			}
+			if ch < 0x20 || ch >= 0x7f {
+				intOnly = false
+			}
+			continue
+		}
+		i++
+		if i >= len(f) {
+			return 0, "", false, false
+		}
+		if f[i] == '%' {
+			minLen++
+			if !seenVerb {
+				prefix += "%"
+			}
+			continue
+		}
+		seenVerb = true
+		plainFlags := true
+		for i < len(f) && strings.IndexByte("+-# 0", f[i]) >= 0 {
+			if f[i] != '0' {
+				plainFlags = false
+			}
+			i++
+		}
+		width := 0
+		for i < len(f) && f[i] >= '0' && f[i] <= '9' {
+			width = width*10 + int(f[i]-'0')
+			i++
+		}
+		if i < len(f) && f[i] == '.' {
+			i++
+			plainFlags = false
+			for i < len(f) && f[i] >= '0' && f[i] <= '9' {
+				i++
+			}
+		}
+		if i >= len(f) || f[i] == '*' || f[i] == '[' {
+			return 0, "", false, false
+		}
+		if width > 1<<20 {
+			return 0, "", false, false
+		}
+		minLen += width
+		switch f[i] {
+		case 'd', 'x', 'X', 'o', 'b':
+			if !plainFlags {
+				intOnly = false
+			}
+		default:
+			intOnly = false
+		}
+	}
+	return minLen, prefix, intOnly, true
+}
+
+func isASCII(s string) bool {
+	for i := 0; i < len(s); i++ {
+		if s[i] >= 0x80 {
+			return false
+		}
+	}
+	return true
 }
 
 // litLen: if term is a string literal constant, its length
